@@ -151,6 +151,8 @@ def _ops():
     op("c_to_dict", "C")(lambda L, a, k, e: L["to_dict"](a[0]))
     op("c_from_dict", "DD")(lambda L, a, k, e: L["circuit_from_dict"](a[0]))
     op("cl_to_dict", "CL")(lambda L, a, k, e: L["to_dict"](a[0]))
+    op("c_save", "C")(lambda L, a, k, e: L["save_circuit"](a[0], e["path"](k)))
+    op("cl_save", "CL")(lambda L, a, k, e: L["save_circuitset"](a[0], e["path"](k)))
     op("c_to_unitary", "C")(lambda L, a, k, e: _sim_ok(a[0]).to_unitary())
     op("c_from_list", "OL")(lambda L, a, k, e: L["Circuit"](a[0]) if k[0] % 2 else L["Circuit"](a[0], 1 + max([q for o in a[0] for q in o.qubit_indices] + [0]) + k[1] % 2))
     op("c_eq", "C", "C")(lambda L, a, k, e: a[0] == a[1])
@@ -202,6 +204,8 @@ def _ops():
     op("p_hc", "P")(lambda L, a, k, e: L["hermitian_conjugated"](a[0]))
     op("p_is_hermitian", "P")(lambda L, a, k, e: L["is_hermitian"](a[0]))
     op("p_to_dict", "P")(lambda L, a, k, e: L["convert_op_to_dict"](a[0]))
+    op("p_save", "P")(lambda L, a, k, e: L["save_operator"](a[0], e["path"](k)))
+    op("p_save_set", "P", "P")(lambda L, a, k, e: L["save_operator_set"]([a[0], a[1]], e["path"](k)))
     op("p_from_dict", "OD")(lambda L, a, k, e: L["convert_dict_to_op"](a[0]))
     op("p_sparse", "P")(lambda L, a, k, e: L["get_sparse_operator"](a[0], None if k[0] % 2 else max(a[0].n_qubits, 1) + 1))
     op("p_reverse", "P")(lambda L, a, k, e: L["reverse_qubit_order"](a[0], None if k[0] % 2 else a[0].n_qubits + 1))
@@ -260,6 +264,10 @@ def _ops():
     op("m_from_counts", "CD")(lambda L, a, k, e: L["Measurements"].from_counts(a[0]))
     op("m_representing", "D")(lambda L, a, k, e: L["Measurements"].get_measurements_representing_distribution(a[0], 1 + k[0] % 60))
     op("m_save", "M")(lambda L, a, k, e: a[0].save(e["path"](k)))
+    # N chosen so that the shares p_i * N are the x.5 / 0.25 values an "overshoot" distribution was built from: rounding then
+    # hands out too many shots and the elimination branch (which edits a working copy of the distribution) runs
+    op("m_representing_fit", "D")(lambda L, a, k, e: L["Measurements"].get_measurements_representing_distribution(
+        a[0], max(1, int(round(0.25 / min(v for v in a[0].distribution_dict.values() if v > 0))))))
     op("m_expectation_freq", "M", "P")(lambda L, a, k, e: L["get_expectation_value_from_frequencies"](
         sorted(a[1].qubits)[: 1 + k[0] % 3], a[0].get_counts()))
     # ---- distributions
@@ -310,6 +318,7 @@ def _cheap_exp(g):
 
 NUMS = [2, 0.5, -1.5, 0, 1j, (1 + 2j), 1]
 OPS = _ops()
+SAVE_OPS = ("m_save", "d_save", "w_save", "d_save_list", "p_save", "p_save_set", "c_save", "cl_save")
 
 MK_TYPES = ["C", "C", "C", "G", "P", "P", "P", "M", "D", "D", "W", "SM", "CD", "CD2", "V", "CL", "TL", "BL", "DD", "OD", "PD", "PD", "OL", "OL"]
 
@@ -366,6 +375,18 @@ class World:
         if t in ("M", "BL"):
             k = r.choice([0, 1, 3, 8])
             return {"t": t, "spec": [[r.randint(0, 1) for _ in range(n)] for _ in range(k)], "np": r.random() < 0.2}
+        if t == "D" and n >= 2 and r.random() < 0.25:
+            # "overshoot" shares: several x.5 counts (rounded up) next to 0.25 counts (rounded to no shot at all)
+            import itertools
+            keys = r.sample(list(itertools.product((0, 1), repeat=n)), r.randint(4, 2 ** n))
+            small = r.randint(2, max(2, len(keys) // 2))
+            cs = [r.choice([0.5, 1.5, 1.5, 2.5, 3.5]) for _ in range(len(keys) - small)]
+            tail = [0.25] * small
+            tail[0] += (1 - (sum(cs) % 1 + 0.25 * small) % 1) % 1
+            cs += tail
+            r.shuffle(cs)
+            tot = sum(cs)
+            return {"t": "D", "spec": [[list(k_), c / tot] for k_, c in zip(keys, cs)], "style": r.choice(["tuple", "bits"]), "raw": False}
         if t in ("D", "CD2"):
             keys = sorted({tuple(r.randint(0, 1) for _ in range(n)) for _ in range(r.randint(1, 5))})
             ws = [r.choice([1, 2, 0.5, r.random()]) for _ in keys]
@@ -426,7 +447,7 @@ class World:
                 continue
             name = r.choice(focus) if r.random() < 0.7 else r.choice(names)
             s = {"op": "call", "args": {"name": name, "refs": [r.randrange(1 << 16) for _ in range(3)], "k": [r.randrange(1 << 12) for _ in range(3)]}}
-            if name in ("m_save", "d_save", "w_save", "d_save_list") and r.random() < cfg["save_faults"]:
+            if name in SAVE_OPS and r.random() < cfg["save_faults"]:
                 s["fault"] = {"kind": r.choice(["enospc", "eio", "eacces", "eio_close"]), "at": r.randrange(0, 4), "frac": r.random()}
             steps.append(s)
         for s in steps:
@@ -478,6 +499,8 @@ class World:
             "save_dists": DM.save_measurement_outcome_distributions,
             "Wavefunction": WF.Wavefunction, "flip_wavefunction": WF.flip_wavefunction, "flip_amplitudes": WF.flip_amplitudes,
             "sample_from_wavefunction": WF.sample_from_wavefunction, "save_wavefunction": WF.save_wavefunction,
+            "save_operator": OP.save_operator, "save_operator_set": OP.save_operator_set,
+            "save_circuit": C.save_circuit, "save_circuitset": C.save_circuitset,
         }
         st = {"L": L, "pool": [], "snaps": [], "returned": 0, "alias": False, "WF": WF, "U": U, "derived": set(), "tainted": set()}
         clear_library_caches()
@@ -699,7 +722,7 @@ class World:
         twin_res = None
         twins = st.get("twins", [])
         provs = [twins[j] if j < len(twins) else None for j in idxs]
-        if (not name.endswith("_save") and name != "d_save_list" and all(p_ is not None for p_ in provs)
+        if (name not in SAVE_OPS and all(p_ is not None for p_ in provs)
                 and sum(self._prov_size(p_) for p_ in provs) <= 10):
             ok_c, targs = call(lambda: [self._fresh(st, p_) for p_ in provs])
             if ok_c:
@@ -734,7 +757,7 @@ class World:
         if name == "sim_wf_init" and not args[0].operations:
             st["tainted"].add(idxs[1])
         c1_before_edit = c1
-        if self._probe_result_alias(ctx, st, name, results, before) and not name.endswith("_save") and name not in ("d_save_list",):
+        if self._probe_result_alias(ctx, st, name, results, before) and name not in SAVE_OPS:
             # the client has edited what the second call gave it; the operation, asked once more with the same
             # arguments, must still give what it gave the first time (no result is handed out twice / kept in a cache
             # that callers can write to)
